@@ -1,9 +1,9 @@
 package main
 
 import (
-	"context"
 	"fmt"
 	"os"
+	"os/exec"
 	"path/filepath"
 	"sort"
 	"strings"
@@ -165,26 +165,28 @@ func runC20(ctx *Ctx, be *fb.Backend, idx int, c c20cfg) (hv.V, string) {
 		args = append(args, "--config", fn)
 		defer os.Remove(fn)
 	}
-	for k, v := range env {
-		os.Setenv(k, v)
-	}
-	defer func() {
-		for k := range env {
-			os.Unsetenv(k)
-		}
-	}()
-
 	be.ResetLog()
-	rctx, cancel := context.WithCancel(context.Background())
-	defer cancel()
+	// the real binary as a subprocess: exit status, crashes and os.Exit are observed as they are
+	self, _ := os.Executable()
+	cmd := exec.Command(filepath.Join(filepath.Dir(self), "cql-proxy"), args...)
+	cmd.Env = []string{"PATH=" + os.Getenv("PATH"), "HOME=" + os.Getenv("HOME")}
+	for k, v := range env {
+		cmd.Env = append(cmd.Env, k+"="+v)
+	}
+	if err := cmd.Start(); err != nil {
+		panic(err)
+	}
+	cancel := func() { _ = cmd.Process.Signal(os.Interrupt) }
 	rcCh := make(chan int, 1)
 	go func() {
-		defer func() {
-			if r := recover(); r != nil {
-				rcCh <- 2
-			}
-		}()
-		rcCh <- proxy.Run(rctx, args)
+		err := cmd.Wait()
+		if err == nil {
+			rcCh <- 0
+		} else if ee, ok := err.(*exec.ExitError); ok && ee.ExitCode() > 0 {
+			rcCh <- ee.ExitCode()
+		} else {
+			rcCh <- 99 // killed by a signal
+		}
 	}()
 	note := c.channel + " " + strings.Join(args, " ")
 	// wait until it listens or exits
@@ -200,6 +202,7 @@ func runC20(ctx *Ctx, be *fb.Backend, idx int, c c20cfg) (hv.V, string) {
 		default:
 		}
 		if time.Now().After(deadline) {
+			_ = cmd.Process.Kill()
 			return hv.L(hv.I(8)), note + " (neither listening nor exited)"
 		}
 		var err error
@@ -214,7 +217,9 @@ func runC20(ctx *Ctx, be *fb.Backend, idx int, c c20cfg) (hv.V, string) {
 		cancel()
 		select {
 		case <-rcCh:
-		case <-time.After(5 * time.Second):
+		case <-time.After(2 * time.Second):
+			_ = cmd.Process.Kill()
+			<-rcCh
 		}
 	}()
 	// effective max version: which versions does the gate accept
@@ -341,11 +346,6 @@ func genC20(ctx *Ctx) {
 	}
 	be.SetTopology(1)
 	defer be.Shutdown()
-	// keep the proxy's own logging out of the case stream
-	devnull, _ := os.OpenFile(os.DevNull, os.O_WRONLY, 0)
-	saved := os.Stderr
-	os.Stderr = devnull
-	defer func() { os.Stderr = saved }()
 
 	base := c20cfg{backend: true, heartbeat: 30 * time.Second, idle: 60 * time.Second, numconns: 1,
 		version: "v4", maxvers: "v4", override: "LOCAL_QUORUM", channel: "flag"}
@@ -446,6 +446,53 @@ func genC20(ctx *Ctx) {
 				c.channel = "yaml"
 				c.rpc, c.tokens, c.peers = rpc, tokens, peers
 				run(c, "peers")
+			}
+		}
+	}
+	// buildNodes called directly: every peer list of length <= 3 over the 8 peer shapes
+	shapes := [][3]bool{}
+	for m := 0; m < 8; m++ {
+		shapes = append(shapes, [3]bool{m&1 != 0, m&2 != 0, m&4 != 0})
+	}
+	var lists [][][3]bool
+	lists = append(lists, nil)
+	for _, a := range shapes {
+		lists = append(lists, [][3]bool{a})
+		for _, b := range shapes {
+			lists = append(lists, [][3]bool{a, b})
+			for _, c := range shapes {
+				lists = append(lists, [][3]bool{a, b, c})
+			}
+		}
+	}
+	for _, rpc := range []bool{false, true} {
+		for _, tokens := range []bool{false, true} {
+			for _, peers := range lists {
+				cfg := proxy.Config{DC: "dc1"}
+				if rpc {
+					cfg.RPCAddr = "10.0.0.1"
+				}
+				if tokens {
+					cfg.Tokens = []string{"0"}
+				}
+				var pv []hv.V
+				for i, p := range peers {
+					pc := proxy.PeerConfig{DC: "dcx"}
+					if p[0] {
+						pc.RPCAddr = fmt.Sprintf("10.0.0.%d", 2+i)
+						if p[1] {
+							pc.RPCAddr = "10.0.0.1"
+						}
+					}
+					if p[2] {
+						pc.Tokens = []string{"1"}
+					}
+					cfg.Peers = append(cfg.Peers, pc)
+					pv = append(pv, hv.L(hv.Bool(p[0]), hv.Bool(p[1] && rpc), hv.Bool(p[2])))
+				}
+				err := proxy.VerifBuildNodes(cfg)
+				ctx.Emit(hv.L(hv.I(3), hv.Bool(rpc), hv.Bool(tokens), hv.L(pv...)), hv.L(hv.Bool(err == nil)), "buildNodes")
+				ctx.Count("buildNodes:direct")
 			}
 		}
 	}
